@@ -23,6 +23,7 @@ var importTable = map[string][]Import{
 		{From: "C10", Rules: []string{"C10.R5"}, Keys: []string{"non-empty-sections", "section-reads-bounded"}, Why: "the sections that get mapped are the ones VisitElfSections reports: every non-empty section header, read inside the section table"},
 		{From: "C07", Rules: []string{"C07.R1"}, Why: "regions reserved earlier keep their translations only if later reservations cannot overlap them or wrap"},
 		{From: "C04", Rules: []string{"C04.R1"}, Why: "section permissions reach the hardware entry only if Map writes exactly the requested frame and flags"},
+		{From: "C04", Rules: []string{"C04.R7"}, Why: "regions mapped earlier in boot keep their translations in the new table only if the frame read back out of an entry (Translate, the copy of the early reservations) uses the hardware's bit layout: frame bits 12..51, four levels of nine index bits"},
 	},
 	"C06": {
 		{From: "C04", Rules: []string{"C04.R1", "C04.R2"}, Why: "the private copy is installed writable, without stale copy-on-write bits, and its TLB entry invalidated, only if Map writes exactly the requested entry and flushes it"},
